@@ -76,7 +76,9 @@ def nontrivial(y):
 
 @st.composite
 def hp_cases(draw):
-    return {"series": draw(series()), "log10_lamb": draw(st.sampled_from([k / 4 for k in range(-12, 29)]))}
+    # two smoothing parameters: the second call, on a series of the same length, must not depend on the first
+    return {"series": draw(series()), "log10_lamb": draw(st.sampled_from([k / 4 for k in range(-12, 29)])),
+            "log10_lamb_before": draw(st.one_of(st.none(), st.sampled_from([k / 2 for k in range(-6, 15)])))}
 
 
 def check_hp(ctx: Ctx, case):
@@ -88,6 +90,8 @@ def check_hp(ctx: Ctx, case):
     y0 = y.copy()
     ctx.count(sub, case, nontrivial(y), [case["series"]["shape"], f"lamb~1e{int(round(case['log10_lamb']))}"])
     with guard(ctx, "C20/exception", sub, case):
+        if case.get("log10_lamb_before") is not None:
+            hp_filter(y[::-1].copy(), 10.0 ** case["log10_lamb_before"])  # an earlier, unrelated evaluation
         cycle, trend = hp_filter(y, lamb)
     m = float(np.max(np.abs(y))) or 1e-300
     if cycle.shape != y.shape or trend.shape != y.shape:
@@ -123,6 +127,7 @@ def check_filters(ctx: Ctx, case):
     ctx.count(sub, case, nontrivial(y), [which, case["series"]["shape"]])
     m = float(np.max(np.abs(y))) or 1e-300
     with guard(ctx, "C20/exception", sub, case):
+        ts.hp_filter(np.linspace(0.0, 1.0, len(y)) ** 2, 3.0)  # an earlier evaluation with another lambda, same length
         if which == "hp1600":
             out = ts.hp_cycle_lamb1600_filter(y)
             base = y
